@@ -265,6 +265,19 @@ theorem gen_stmts_release :
     stmts_release = Skel.stmts_release ∧ stmts_destruct_all = Skel.stmts_destruct_all := by decide
 theorem gen_stmts_contains : stmts_contains = Skel.stmts_contains := by decide
 
+/-- Generated obligation behind the assumption "pages are `page_size`-aligned and the page size is
+a power of two" (`PageOKenv`, hypotheses `∃ k, ps = 2 ^ k` of the theorems) for the library's own
+allocators: `NewDeletePageAllocator` normalises its page size with `bit_ceil` and asks `operator new`
+for exactly `align_val_t(_page_size)` — for every page size, not capped — and returns pages with the
+same arguments; `SystemPageAllocator` forwards to one.  (Cached / Batch / Counting / PageHeap only
+forward pages; the harness's spy checks all of them at run time up to 65536-byte pages.) -/
+theorem gen_page_allocator_alignment :
+    stmts_newdelete_set_page_size = Skel.stmts_newdelete_set_page_size ∧
+    stmts_newdelete_allocate = Skel.stmts_newdelete_allocate ∧
+    stmts_newdelete_deallocate = Skel.stmts_newdelete_deallocate ∧
+    stmts_system_allocate = Skel.stmts_system_allocate ∧
+    newDeletePageAlignArg = "::std::align_val_t(_page_size)" := by decide
+
 set_option maxRecDepth 8192 in
 /-- Generated obligation: the shared `release()` makes two passes over the per-thread resources —
 `destruct_all()` on every one, then `release()` on every one — the swiss one only clears its arena
